@@ -11,11 +11,11 @@
 //   Prepare/Execute Write, CCCD read / write, notify(), indicate(), l2cap_output, confirmation } aimed at k
 //   (plus one unprotected and one protected partner for the multi-attribute requests).
 //
-// Reference: 'protected' is computed from the doxygen of encryption.hpp only: the innermost level (characteristic,
-// then service, then server) that carries any of the three options decides; it protects iff it says
-// requires_encryption (may_require_encryption: "the characteristic does _not_ require encryption" for value bindings).
-// The implementation treats may_require_encryption as transparent (inherits the outer level); those placements are
-// only recorded as classes, nothing is demanded for them (weaker reading).
+// Reference: 'protected' follows the inheritance rule of encryption.hpp ("applies to all containing characteristics, where
+// it can be overridden"): the nearest level (characteristic, then service, then server) that says requires_encryption
+// or no_encryption_required decides; may_require_encryption only adds the support code and is transparent for a bound
+// value (the @attention note of the docs is about handlers that decide on their own), so a characteristic or service
+// marked may_require_encryption below a requiring level stays protected.  Computed here from the option numbers only.
 #ifdef C05_FAST_BUILD
 #pragma GCC optimize( "O0" )
 #endif
@@ -86,9 +86,10 @@ inline std::uint8_t  tag( int k )         { return std::uint8_t( 0xB0 + k ); }  
 inline int opt_srv( int )   { return SRV_OPT; }
 inline int opt_svc( int k ) { return k / 4; }
 inline int opt_chr( int k ) { return k % 4; }
+inline bool decides( int o ) { return o == O_REQ || o == O_NOREQ; }
 inline int deciding_level( int k )   // 0 characteristic, 1 service, 2 server, 3 nobody
 {
-    return opt_chr( k ) != O_NONE ? 0 : opt_svc( k ) != O_NONE ? 1 : opt_srv( k ) != O_NONE ? 2 : 3;
+    return decides( opt_chr( k ) ) ? 0 : decides( opt_svc( k ) ) ? 1 : decides( opt_srv( k ) ) ? 2 : 3;
 }
 inline bool ref_protected( int k )
 {
@@ -100,13 +101,11 @@ inline bool ref_protected( int k )
     default: return false;
     }
 }
-// other defensible reading: may_require_encryption is transparent.  Only used to label classes.
-inline bool alt_protected( int k )
+// a may_require_encryption option sits between the characteristic and the level that decides (or on the characteristic)
+inline bool through_may( int k )
 {
-    const int o[ 3 ] = { opt_chr( k ), opt_svc( k ), opt_srv( k ) };
-    for ( int i = 0; i != 3; ++i )
-        if ( o[ i ] == O_REQ || o[ i ] == O_NOREQ ) return o[ i ] == O_REQ;
-    return false;
+    const int d = deciding_level( k );
+    return ( d > 0 && opt_chr( k ) == O_MAY ) || ( d > 1 && opt_svc( k ) == O_MAY );
 }
 const char* const level_names[] = { "characteristic", "service", "server", "nobody" };
 inline std::string placement( int k ) { return mc::fmt( "srv=%s,svc=%s,chr=%s", opt_names[ opt_srv( k ) ], opt_names[ opt_svc( k ) ], opt_names[ opt_chr( k ) ] ); }
@@ -189,7 +188,7 @@ struct World
         for ( int m = 0; m != NCHR; ++m )
         {
             if ( m == k ) continue;
-            if ( j_free < 0 && !ref_protected( m ) && !alt_protected( m ) ) j_free = m;
+            if ( j_free < 0 && !ref_protected( m ) ) j_free = m;
             if ( j_prot < 0 && watch( m ) ) j_prot = m;
         }
         events.clear();
@@ -422,7 +421,7 @@ struct World
         if ( c.fails.empty() && ( memcmp( before_guard, guard_lo, 8 ) != 0 || memcmp( before_guard + 8, guard_hi, 8 ) != 0 ) )
             c.fail( "stray-write:arena-guard", mc::fmt( "%s changed memory next to the bound values", kind ) );
 
-        c.cls( mc::fmt( "%s/%s/%s/%s", kind, link_names[ link ], ref_protected( k ) ? "protected" : alt_protected( k ) ? "may-inherits-req" : "free", response_class().c_str() ) );
+        c.cls( mc::fmt( "%s/%s/%s/%s", kind, link_names[ link ], ref_protected( k ) ? ( through_may( k ) ? "protected-through-may" : "protected" ) : "free", response_class().c_str() ) );
         return true;
     }
 };
@@ -442,18 +441,13 @@ bool static_case( int m, int l, int attr, mc::Report& rep, bool verbose )
     const bool refused = world.out_size == 5 && world.out[ 0 ] == 0x01;
     const std::string trace = mc::fmt( "S m=%d l=%d attr=%d  # %s, link %s, Read(%s 0x%02x)", m, l, attr, placement( m ).c_str(), link_names[ l ], attr ? "cccd" : "value", h );
     if ( verbose ) printf( "  %s -> %s\n", trace.c_str(), mc::hex( world.out, world.out_size ).c_str() );
-    rep.cls( mc::fmt( "placement/%s/decided-by-%s/%s/%s/%s", ref_protected( m ) ? "protected" : alt_protected( m ) ? "may-inherits-req" : "free",
+    rep.cls( mc::fmt( "placement/%s/decided-by-%s/%s/%s/%s", ref_protected( m ) ? ( through_may( m ) ? "protected-through-may" : "protected" ) : "free",
                       level_names[ deciding_level( m ) ], attr ? "cccd" : "value", l == L_ENC ? "encrypted" : "unencrypted", world.response_class().c_str() ) );
-    if ( l != L_ENC && !ref_protected( m ) && refused && ( world.out[ 4 ] == 0x05 || world.out[ 4 ] == 0x0F ) )
-    {
-        std::string& n = rep.notes[ "implementation stricter than the documented rule (nothing demanded, no violation)" ];
-        if ( n.find( placement( m ) ) == std::string::npos ) n += placement( m ) + " ";
-    }
     if ( !ref_protected( m ) || l == L_ENC ) return true;
     if ( world.is_error( 0x0A, h, want_code( l ) ) ) return true;
     std::string sig, detail = mc::fmt( "%s, link %s: Read(%s) answered with %s", placement( m ).c_str(), link_names[ l ], attr ? "cccd" : "value", mc::hex( world.out, world.out_size ).c_str() );
     if ( refused ) sig = mc::fmt( "wrong-error-code:%s:got-%02x-want-%02x", attr ? "cccd-read" : "read", world.out[ 4 ], want_code( l ) );
-    else sig = mc::fmt( "placement-not-enforced:%s:decided-at-%s", attr ? "cccd" : "value", level_names[ deciding_level( m ) ] );
+    else sig = mc::fmt( "placement-not-enforced:%s:decided-at-%s%s", attr ? "cccd" : "value", level_names[ deciding_level( m ) ], through_may( m ) ? ":through-may" : "" );
     rep.fail( sig, detail, { trace } );
     if ( verbose ) printf( "    FAIL %s: %s\n", sig.c_str(), detail.c_str() );
     return refused;   // a wrong code does not put the exploration out of step, a missing check does
@@ -530,9 +524,9 @@ int main( int argc, char** argv )
         world.target( k );
         mc::Report rep; rep.property = "C05"; rep.unit = total.unit;
         mc::BfsOptions o;
-        // protected placements: all reachable states (thorough) / depth 8; the others (nothing demanded for the target
+        // protected placements: all reachable states (thorough) / depth 6 (quick); the others (nothing demanded for the target
         // itself, the global oracles watch the protected neighbours): a shallow sweep
-        o.max_depth  = int( a.num( "depth", ref_protected( k ) ? ( a.thorough() ? 64 : 8 ) : ( a.thorough() ? 8 : 5 ) ) );
+        o.max_depth  = int( a.num( "depth", ref_protected( k ) ? ( a.thorough() ? 64 : 6 ) : ( a.thorough() ? 8 : 5 ) ) );
         o.max_states = 3000000;
         mc::Bfs< World > bfs( world, rep, a, o );
         bfs.run();
@@ -553,7 +547,7 @@ int main( int argc, char** argv )
     total.counters[ "placements in this unit" ] = NCHR;
     total.fixpoint = n_protected == n_protected_fixpoint;
     total.notes[ "bound" ] = mc::fmt( "server option %s: 16 placements x 4 link states x {value, cccd} Read; BFS from the encrypted state per characteristic: %d protected placements (%d to fixpoint, else depth %d), other placements depth %d",
-                                      opt_names[ SRV_OPT ], n_protected, n_protected_fixpoint, a.thorough() ? 64 : 8, a.thorough() ? 8 : 5 );
+                                      opt_names[ SRV_OPT ], n_protected, n_protected_fixpoint, a.thorough() ? 64 : 6, a.thorough() ? 8 : 5 );
     total.write( a );
     return 0;
 }
